@@ -64,69 +64,7 @@ func C12(c *core.Ctx) {
 	nre := checkArrivalOrderIndependence(c, "C-reorder")
 	c.Floor("C-reorder/consumers", nre, 6)
 	// ---- C-map
-	mrs := listMapRanges(c)
-	counts := map[string]int{}
-	ord := map[string]int{}
-	for _, mr := range mrs {
-		counts[mr.class]++
-		pkgName := mr.pkg[strings.LastIndex(mr.pkg, "/")+1:]
-		fkey := pkgName + "." + mr.fn.Name.Name
-		ord[fkey]++
-		key := fmt.Sprintf("C-map/%s#%d", fkey, ord[fkey])
-		switch mr.class {
-		case "single", "commutative":
-			c.Ob(key+"/"+mr.class, true, mr.stmt.Pos(), "")
-		default:
-			h, ok := mapHarness[fkey]
-			if !ok {
-				// the routine may have been renamed: compare with the current names of the registered anchors
-				for ref, hh := range mapHarness {
-					i := strings.Index(ref, ".")
-					pkgRel := map[string]string{"sam": "pkg/sam", "variants": "pkg/variants", "snps": "pkg/snps", "updown": "pkg/updown"}[ref[:i]]
-					if ref[:i] == pkgName && currentName(c, pkgRel, ref[i+1:]) == mr.fn.Name.Name {
-						h, ok = hh, true
-					}
-				}
-			}
-			if !ok {
-				c.Und(key+"/order-sensitive", mr.stmt.Pos(), "iteration over a map whose body depends on iteration order, in a routine with no order-independence harness: map order must not reach output")
-				continue
-			}
-			var evA, evB []*eval.Evaluator
-			evalTrace = &evA
-			a, err1 := h(c, false)
-			evalTrace = &evB
-			b, err2 := h(c, true)
-			evalTrace = nil
-			if err1 != nil || err2 != nil {
-				c.Und(key+"/order-sensitive", mr.stmt.Pos(), "cannot evaluate the enclosing routine: %v %v", err1, err2)
-				continue
-			}
-			c.Ob(key+"/order-independent-result", a == b, mr.stmt.Pos(), "result depends on map iteration order: forward %q, reversed %q", firstN(a, 200), firstN(b, 200))
-			// the model sorts stably; sort.Slice promises no order among elements that compare equal, so where such a
-			// sort receives its input in an order that follows the map's, the result is not determined by the input
-			var unstable []string
-			var upos token.Pos
-			for i := 0; i < len(evA) && i < len(evB); i++ {
-				sa, sb := evA[i].SortCalls, evB[i].SortCalls
-				for k := 0; k < len(sa) && k < len(sb); k++ {
-					if sa[k].Func != "sort.SliceStable" && (sa[k].Ties || sb[k].Ties) && sa[k].Input != sb[k].Input {
-						unstable = append(unstable, fmt.Sprintf("%s: %s sorts elements that arrive in map iteration order and some of them compare equal: their final order is whatever the unstable sort leaves", c.PosStr(sa[k].Pos), sa[k].Func))
-						upos = sa[k].Pos
-					}
-				}
-			}
-			sort.Strings(unstable)
-			unstable = uniqStrings(unstable)
-			c.Ob(key+"/no-unstable-sort-of-map-ordered-ties", len(unstable) == 0, upos, "%s", first(unstable, 2))
-			c.Sample(map[string]string{"rule": "C-map", "routine": fkey, "result_under_both_orders": firstN(a, 120)})
-		}
-	}
-	c.Count("map_iterations", len(mrs))
-	c.Count("map_iterations_single", counts["single"])
-	c.Count("map_iterations_commutative", counts["commutative"])
-	c.Count("map_iterations_order_sensitive", counts["order-sensitive"])
-	c.Floor("C-map/sites", len(mrs), 5)
+	checkMapRanges(c, "C-map")
 	// ---- C-src with positive control
 	nuses := 0
 	for k, pk := range c.Pkgs {
@@ -685,5 +623,83 @@ func checkStdoutWriters(c *core.Ctx, p *progFacts, rule string, pkgs ...string) 
 		c.Floor(rule+"/stdout-references", nref, 2)
 	} else {
 		c.Count("stdout_references_in_scope", nref)
+	}
+}
+
+// checkMapRanges: every iteration over a map (in the given packages; none = all of pkg/) is classified - guarded by
+// len==1, commutative body, or order-sensitive; an order-sensitive one must have an evaluation harness that gives the
+// same result under forward and reversed iteration, and no unstable sort may receive map-ordered input with ties.
+func checkMapRanges(c *core.Ctx, rule string, pkgs ...string) {
+	var mrs []mapRange
+	for _, mr := range listMapRanges(c) {
+		if len(pkgs) == 0 || containsStr(pkgs, mr.pkg) {
+			mrs = append(mrs, mr)
+		}
+	}
+	counts := map[string]int{}
+	ord := map[string]int{}
+	for _, mr := range mrs {
+		counts[mr.class]++
+		pkgName := mr.pkg[strings.LastIndex(mr.pkg, "/")+1:]
+		fkey := pkgName + "." + mr.fn.Name.Name
+		ord[fkey]++
+		key := fmt.Sprintf("%s/%s#%d", rule, fkey, ord[fkey])
+		switch mr.class {
+		case "single", "commutative":
+			c.Ob(key+"/"+mr.class, true, mr.stmt.Pos(), "")
+		default:
+			h, ok := mapHarness[fkey]
+			if !ok {
+				// the routine may have been renamed: compare with the current names of the registered anchors
+				for ref, hh := range mapHarness {
+					i := strings.Index(ref, ".")
+					pkgRel := map[string]string{"sam": "pkg/sam", "variants": "pkg/variants", "snps": "pkg/snps", "updown": "pkg/updown"}[ref[:i]]
+					if ref[:i] == pkgName && currentName(c, pkgRel, ref[i+1:]) == mr.fn.Name.Name {
+						h, ok = hh, true
+					}
+				}
+			}
+			if !ok {
+				c.Und(key+"/order-sensitive", mr.stmt.Pos(), "iteration over a map whose body depends on iteration order, in a routine with no order-independence harness: map order must not reach output")
+				continue
+			}
+			var evA, evB []*eval.Evaluator
+			evalTrace = &evA
+			a, err1 := h(c, false)
+			evalTrace = &evB
+			b, err2 := h(c, true)
+			evalTrace = nil
+			if err1 != nil || err2 != nil {
+				c.Und(key+"/order-sensitive", mr.stmt.Pos(), "cannot evaluate the enclosing routine: %v %v", err1, err2)
+				continue
+			}
+			c.Ob(key+"/order-independent-result", a == b, mr.stmt.Pos(), "result depends on map iteration order: forward %q, reversed %q", firstN(a, 200), firstN(b, 200))
+			// the model sorts stably; sort.Slice promises no order among elements that compare equal, so where such a
+			// sort receives its input in an order that follows the map's, the result is not determined by the input
+			var unstable []string
+			var upos token.Pos
+			for i := 0; i < len(evA) && i < len(evB); i++ {
+				sa, sb := evA[i].SortCalls, evB[i].SortCalls
+				for k := 0; k < len(sa) && k < len(sb); k++ {
+					if sa[k].Func != "sort.SliceStable" && (sa[k].Ties || sb[k].Ties) && sa[k].Input != sb[k].Input {
+						unstable = append(unstable, fmt.Sprintf("%s: %s sorts elements that arrive in map iteration order and some of them compare equal: their final order is whatever the unstable sort leaves", c.PosStr(sa[k].Pos), sa[k].Func))
+						upos = sa[k].Pos
+					}
+				}
+			}
+			sort.Strings(unstable)
+			unstable = uniqStrings(unstable)
+			c.Ob(key+"/no-unstable-sort-of-map-ordered-ties", len(unstable) == 0, upos, "%s", first(unstable, 2))
+			c.Sample(map[string]string{"rule": "C-map", "routine": fkey, "result_under_both_orders": firstN(a, 120)})
+		}
+	}
+	c.Count("map_iterations", len(mrs))
+	c.Count("map_iterations_single", counts["single"])
+	c.Count("map_iterations_commutative", counts["commutative"])
+	c.Count("map_iterations_order_sensitive", counts["order-sensitive"])
+	if len(pkgs) == 0 {
+		c.Floor(rule+"/sites", len(mrs), 5)
+	} else {
+		c.Floor(rule+"/sites", len(mrs), 1)
 	}
 }
